@@ -333,7 +333,29 @@ def classify_jump_spaces(params, fail):
     return re.search(r"<<jump\s\s+", srcs) is not None
 
 
-CLASSIFIERS = {"cmd-name-prefix": classify_cmd_name_prefix, "jump-extra-space": classify_jump_spaces}
+def classify_truncated_after_node(params, fail):
+    """F31: the failure is 'a line indented with tabs and spaces was loaded', and that line lies after a complete node that is
+    followed by something no node can start with (a body marker without headers, an indented hashtag): the parser stops
+    there without an error and the rest of the reader — the mixed line included — is never looked at."""
+    if "indented with both tabs and spaces was loaded" not in fail.get("kind", ""):
+        return False
+    for m in re.findall(r"\(b((?: \d+)*)\)", fail.get("case", "").split("(seed", 1)[0]):
+        text = bytes(int(x) for x in m.split()).decode("utf-8", errors="replace")
+        lines = re.split(r"\r\n|\n|\r", text)
+        stopped = False
+        for k, ln in enumerate(lines):
+            if ln.strip(" \t").startswith("==="):
+                nxt = next((l for l in lines[k + 1:] if l.strip(" \t") != ""), None)
+                if nxt is not None and (nxt.strip(" \t") == "---" or (nxt[:1] in " \t" and nxt.lstrip(" \t").startswith("#"))):
+                    stopped = True
+            body = ln.lstrip(" \t")
+            ind = ln[:len(ln) - len(body)]
+            if " " in ind and "\t" in ind and body.strip() != "" and not body.startswith("//"):
+                return stopped       # the first mixed line: known only if the parser had stopped before it
+    return False
+
+
+CLASSIFIERS = {"cmd-name-prefix": classify_cmd_name_prefix, "jump-extra-space": classify_jump_spaces, "truncated-after-node": classify_truncated_after_node}
 
 
 def cmdargs_spec(io, spec, case):
@@ -462,6 +484,12 @@ def special_load(prop, sc, tier, seed, harness, repo):
     n = sc["thorough"] if tier == "thorough" else sc["quick"]
     r = subprocess.run([harness, "gen", "load", sc["profile"], str(seed), str(n)], capture_output=True, text=True)
     lines = [l for l in r.stdout.split("\n") if l]
+    if sc["profile"] == "mixed" and prop == "C05":
+        # the corpus of the property runs first (known findings among them)
+        cdir = os.path.join(os.path.dirname(os.path.dirname(os.path.abspath(__file__))), "corpus", prop)
+        if os.path.isdir(cdir):
+            for fn in sorted(os.listdir(cdir)):
+                lines = [l for l in open(os.path.join(cdir, fn)).read().split("\n") if l.startswith("(case load ")] + lines
     env = dict(os.environ, GOMAXPROCS="8", GOMEMLIMIT="4GiB")
     p = subprocess.run([harness, "run"], input="\n".join(lines) + "\n", capture_output=True, text=True, timeout=3000, env=env)
     impl = {}
